@@ -504,7 +504,7 @@ SIG_F9_NONFINITE = "ConfigThresholds:non-finite-direction-value-panics"
 SIG_F9_ACC = "ConfigThresholds:negative-accumulated-threshold-accepted"
 TOML_VAL = {"neg": "-1.5", "negint": "-3", "negzero": "-0.0", "zero": "0.0", "pos": "2.25", "posint": "7", "pinf": "inf", "ninf": "-inf",
             "nan": "nan", "infstr": '"inf"', "otherstr": '"many"', "bool": "true", "hugeint": "9223372036854775807",
-            "table": "{ a = 1 }", "array": "[1, 2]"}
+            "table": "{ a = 1 }", "array": "[1, 2]", "hugefloat": "1e30", "durmax": "1.9e19", "tiny": "1e-320"}
 MALFORMED = {
     "empty": "",
     "garbage": "\x00\x01 this is = = not toml [[[",
@@ -536,9 +536,15 @@ def struct_doc(c):
     f = c["field"]
     if f == "source.pool.count":
         return '[[source]]\nmode = "pool"\naddress = "pool.example.org"\ncount = %s\n' % v
-    if f.startswith("source.sock."):
-        other = "accuracy" if f.endswith("precision") else "precision"
-        return '[[source]]\nmode = "sock"\npath = "/run/verif.sock"\n%s = %s\n%s = 0.001\n' % (f.split(".")[-1], v, other)
+    if f.startswith("source.sock.") or f.startswith("source.pps."):
+        mode, key = f.split(".")[1:]
+        other = "".join("%s = 0.001\n" % k for k in ("precision", "accuracy") if k != key)
+        return '[[source]]\nmode = "%s"\npath = "/run/verif.%s"\n%s = %s\n%s' % (mode, mode, key, v, other if key != "measurement_noise_estimate" else "")
+    if f.startswith("source.csptp."):
+        return '[[source]]\nmode = "csptp"\naddress = "csptp.example.org"\n%s = %s\n' % (f.split(".")[-1], v)
+    if f.startswith("nts-ke-server."):
+        return ('[[nts-ke-server]]\nlisten = "127.0.0.1:4460"\ncertificate-chain-path = "/nonexistent/verif.chain.pem"\n'
+                'private-key-path = "/nonexistent/verif.key"\n%s = %s\n' % (f.split(".")[-1], v))
     if f.startswith("server."):
         return '[[server]]\nlisten = "127.0.0.1:1123"\n%s = %s\n' % (f.split(".")[-1], v)
     parts = f.split(".")
@@ -555,7 +561,7 @@ def cfg_sig(a):
 def run_c39(out, tier, seed):
     out.coverage["rule"] = ("every threshold class (3 settings x 5 forms x 12 value classes) through the serde visitors of ntp-proto and, as a "
                             "TOML document, through toml::from_str::<Config> + Config::check; outcome compared with the intended loader of "
-                            "ConfigThresholds.tla; structural classes (26 other settings x 15 value classes, 13 malformed documents): no panic")
+                            "ConfigThresholds.tla; structural classes (38 other settings x 18 value classes, 13 malformed documents): no panic")
     out.assumptions += ["code observed as compiled for tests (debug assertions on: NaN / infinite per-direction values panic in "
                         "NtpDuration::from_seconds; in release builds NaN is accepted as 0 and infinities saturate)",
                         "one representative value per class; the configuration file is read as a string (file-system errors not exercised)"]
@@ -654,7 +660,7 @@ MANIFEST["C39"] = dict(
               "toml::from_str::<Config> + Config::check (ntpd) under catch_unwind; structural TOML classes with the no-panic oracle",
     text="Loading yields an error or a configuration, never a panic; an accepted single / startup / accumulated step threshold is never "
          "negative and a document giving a negative number or NaN for (a direction of) a threshold is rejected: 3 settings x "
-         "{number, forward, backward, both} x 12 value classes on two paths; 26 other settings x 15 value classes and 13 malformed documents do not panic.",
+         "{number, forward, backward, both} x 12 value classes on two paths; 38 other settings x 18 value classes and 13 malformed documents do not panic.",
     note="class grammar with one representative per class; the structural classes only have the no-panic oracle; observed as compiled for "
          "tests (debug assertions); command-line overrides and file-system errors are not exercised")
 
